@@ -18,6 +18,10 @@ fn f_neg(obs: f64) -> Result<bool, CausalityError> {
     match code(obs) { 2 => Err(CausalityError("marker".into())), 0 => Ok(true), _ => Ok(false) }
 }
 
+// contextual variants (same verdicts; the context is the one the causaloid was built with)
+fn f_thr_ctx(obs: f64, _ctx: &BaseContext) -> Result<bool, CausalityError> { f_thr(obs) }
+fn f_neg_ctx(obs: f64, _ctx: &BaseContext) -> Result<bool, CausalityError> { f_neg(obs) }
+
 macro_rules! actions {
     ($($name:ident = $k:expr),*) => {
         $( fn $name() -> Result<(), ActionError> {
@@ -36,8 +40,16 @@ const NSTATES: usize = 24;
 
 pub fn run(args: &[i128]) -> Vec<i128> {
     // pools
+    let ctx: &'static BaseContext = Box::leak(Box::new(Context::with_capacity(1, "csm", 2)));
     let causaloids: &'static Vec<BaseCausaloid<'static>> = Box::leak(Box::new(
-        (0..NSTATES).map(|s| Causaloid::new(s as u64, if s % 2 == 0 { f_thr } else { f_neg }, "c")).collect()));
+        (0..NSTATES).map(|s| {
+            if s % 3 == 2 {
+                // every third causaloid of the pool is a CONTEXTUAL one (Causaloid::new_with_context): another code path of verify_single_cause
+                Causaloid::new_with_context(s as u64, if s % 2 == 0 { f_thr_ctx } else { f_neg_ctx }, Some(ctx), "c")
+            } else {
+                Causaloid::new(s as u64, if s % 2 == 0 { f_thr } else { f_neg }, "c")
+            }
+        }).collect()));
     let states: &'static Vec<CausalState<'static, _, _, _, _, _>> = Box::leak(Box::new(
         (0..NSTATES).map(|s| CausalState::new(s / 3, 1, (10 * s + s % 3) as f64, &causaloids[s])).collect()));
     let acts: &'static Vec<CausalAction> = Box::leak(Box::new((0..16).map(|k| CausalAction::new(action_fn(k), "a", 1)).collect()));
